@@ -56,13 +56,15 @@ def directional(f, eps_h=1e-3):
 
 
 def compare(res, subcheck, site, analytic, numeric, dis, features=None, tol=1e-6, relative=False,
-            dis_tol=1e-7, detail=None):
+            dis_tol=1e-7, detail=None, scale=None):
     """Record the verdict of one derivative comparison into Result `res`.
 
     inconclusive (two differencing levels disagree) is counted, never a violation.
     absolute/relative mix: err <= tol * (1 + max|numeric|)   (relative=False)
     purely relative:       err <= tol * max(|analytic|, |numeric|)   (relative=True)
+    explicit scale:        err <= tol * scale                        (scale=...)
     """
+    scale_override = scale
     analytic = np.asarray(analytic, dtype=float)
     numeric = np.asarray(numeric, dtype=float)
     if analytic.shape != numeric.shape:
@@ -82,6 +84,8 @@ def compare(res, subcheck, site, analytic, numeric, dis, features=None, tol=1e-6
         return False
     scale = max(float(np.max(np.abs(numeric))), float(np.max(np.abs(analytic))))
     ref = scale if relative else 1.0 + float(np.max(np.abs(numeric)))
+    if scale_override is not None:
+        ref = float(scale_override)
     if dis > dis_tol * (ref if ref > 0 else 1.0):
         res.inconclusive += 1
         return True
